@@ -53,6 +53,12 @@ FAMILIES = {
                   must=lambda b: any(e["a"] in ("emfile", "stopreading", "close") or e["k"] in ("partial", "bad") for e in b)),
 }
 
+# long random histories (TLC -simulate over Scen.tla): 14 environment actions, three connections
+FAMILIES["long"] = dict(consts={"Conns": '{"c1", "c2", "c3"}', "MaxReq": "4", "FrameKinds": '{"op", "unbind", "bad", "partial"}', "AllowStopReading": "TRUE"},
+                        depth=14, simulate=(250, 3000), cfgs=[{"unbind_route": "0"}, {"unbind_route": "1"}, {"unbind_route": "1", "reset": "1"}])
+FAMILIES["long-starttls"] = dict(consts={"Conns": '{"c1", "c2"}', "MaxReq": "5", "FrameKinds": '{"op", "starttls", "unbind"}'}, depth=12, simulate=(3000, 20000),
+                                 cfgs=[{"unbind_route": "0", "tls": "starttls"}], must=lambda b: starttls_ok(b))
+
 DESIGN = {
     "quick": {"Conns": '{"c1"}', "MaxReq": "2", "FrameKinds": '{"op", "unbind", "partial", "bad"}'},
     # two connections: 25.8 M distinct states (134 M generated), about 5 minutes with 12 workers; MaxReq 2 with four frame kinds did not finish in 50 minutes
@@ -245,6 +251,21 @@ def scripted_family(run, fam, quick):
         tl = [[R, D("c1", "silent"), T("c1")], [R, D("c1", "valid"), S("c1", "op"), T("c1")], [R, D("c1", "valid"), T("c1"), stop1]]
         out += [(b, {"unbind_route": "0", "read_timeout_ms": ms, "tls": "tls"}) for b in scen.scripted(run, tl, dict(base, TLSMode='"server"'))]
         return out
+    elif fam == "outliving":
+        # a handler that outlives its client by several seconds while other connections come and go: the connection (and
+        # its ID, asked again when the handler finally returns) stays its own
+        R, D = {"a": "run"}, lambda c: {"a": "dial", "c": c}
+        S = lambda c, k, hold=False: {"a": "send", "c": c, "k": k, "hold": hold}
+        rel = lambda c, i: {"a": "release", "c": c, "i": i}
+        cl = lambda c: {"a": "close", "c": c}
+        consts = {"Conns": '{"c1", "c2", "c3"}', "MaxReq": "2", "FrameKinds": '{"op", "unbind"}'}
+        scripts = [[R, D("c1"), S("c1", "op", True), cl("c1"), D("c2"), S("c2", "op"), cl("c2"), D("c3"), S("c3", "op", True), S("c3", "op"), rel("c1", 1), rel("c3", 1)],
+                   [R, D("c1"), D("c2"), S("c1", "op", True), S("c2", "op", True), cl("c1"), cl("c2"), D("c3"), S("c3", "op"), rel("c2", 1), rel("c1", 1), S("c3", "op")]]
+        out = []
+        for b in scen.scripted(run, scripts, consts):
+            k = next(i for i, e in enumerate(b) if e["a"] == "dial" and e["c"] == "c3")
+            out.append((b[:k] + [{"a": "sleep", "c": "", "i": 6500 if quick else 16000, "k": "", "s": "", "hold": False}] + b[k:], {"unbind_route": "0"}))
+        return out
     elif fam == "starttls-adversarial":
         # (a) a complete plaintext request glued behind the StartTLS request in the same segment: never served, the tunnel works;
         # (b) the StartTLS handler keeps working after the upgrade while the client already sends inside the tunnel:
@@ -312,7 +333,7 @@ def scripted_family(run, fam, quick):
     return [(b, dict(cfgs[n % len(cfgs)])) for n, b in enumerate(behs)]
 
 
-SCRIPTED = {"deep", "manyconns", "ready", "stopstates", "starttls2", "starttls-inflight", "starttls-close", "timeout", "starttls-adversarial"}
+SCRIPTED = {"deep", "manyconns", "ready", "stopstates", "starttls2", "starttls-inflight", "starttls-close", "timeout", "starttls-adversarial", "outliving"}
 
 
 def run_families(run, names, cap):
@@ -327,7 +348,8 @@ def run_families(run, names, cap):
             continue
         f = FAMILIES[fam]
         consts = dict(f["consts"])
-        behs, res = scen.behaviours(run, consts, f["depth"], allow_panic=f.get("panic", False), cap=cap, must_contain=f.get("must"))
+        behs, res = scen.behaviours(run, consts, f["depth"], allow_panic=f.get("panic", False), cap=cap, must_contain=f.get("must"),
+                                     simulate=(f["simulate"][0 if run.quick() else 1] if f.get("simulate") else None))
         stats[fam] = {"behaviours": len(behs), "scen_states": res.distinct}
         for n, b in enumerate(behs):
             cfgv = dict(f["cfgs"][n % len(f["cfgs"])])
@@ -352,9 +374,11 @@ def check(run, pid, families, extra=None):
     res = scen.validate(run, trace, first=ATTR[pid]["inv"])
     viols = attribute(pid, res, rows, scenarios)
     # refinement: every recorded execution (its per-goroutine event sequences) is a behaviour of Gldap.tla
-    racc, rrej, rn, rskip = refine.check(run, rows, scenarios if not q else scenarios[:600])
+    lim = 600 if q else 4000       # spread over all families
+    step = max(1, (len(scenarios) + lim - 1) // lim)
+    racc, rrej, rn, rskip = refine.check(run, rows, scenarios[::step])
     viols += refine.violations(pid, rrej, rows, scenarios)
-    ntamper, slipped = refine.selftest(run, rows, scenarios)
+    ntamper, slipped = refine.selftest(run, rows, scenarios, racc)
     if slipped:
         raise vlib.Infra("refinement check accepts corrupted traces: %s" % slipped)
     nextra = 0
@@ -380,7 +404,7 @@ def check(run, pid, families, extra=None):
 
 ASSUME = ["behaviours are in quiescent normal form: the harness takes the next environment action only after the observable events the model predicts "
           "have been seen (positive signals; bounded waits) - interleavings inside gldap's own code between those points are left to the Go scheduler",
-          "a connection's tag is learned from message ids; scheduling gates (build tag verif) are used for synchronisation only, never for a verdict",
+          "a connection's tag is learned from message ids; the monitors of GldapTrace use the scheduling gates (build tag verif) for synchronisation only; their log lines are the linearization points of the refinement check (GldapRefine), which concludes order only from program order within a goroutine and from 'logged before the previous line of the acting goroutine'",
           "operation kinds rotate over bind/search/modify/add/delete per frame and seed"]
 
 
